@@ -59,7 +59,10 @@ def strip_marks(b):
 
 PASSWORDS = [b'', b'password', b'a', b'correct horse battery staple', 'pässwörd'.encode(), unicodedata.normalize('NFD', 'pässwörd').encode(),
              'ﬁ Ω ｶ'.encode(), '日本語のパスワード'.encode(), 'ｱｲｳ'.encode(), b'x' * 358, b'x' * 359, b'x' * 360, b'x' * 400,
-             ('é' * 180).encode(), b'\xff\xfe', b'abc\x80', 'Å'.encode(), 'Å'.encode(), 'Å'.encode()]
+             ('é' * 180).encode(), b'\xff\xfe', b'abc\x80', 'Å'.encode(), 'Å'.encode(), 'Å'.encode(),
+             # compatibility decompositions below U+00C0 and elsewhere: NFKD differs from the bytes given although no letter is accented
+             'pass²'.encode(), 'a\u00a0b'.encode(), 'ª º µ'.encode(), '¼½¾'.encode(), '´¨¸¯'.encode(), 'x\u2003y\u3000z'.encode(), 'Ⅳ ㎏ ＡＢＣ'.encode(),
+             '\u00b2'.encode(), 'ǆ ĳ ŀ'.encode(), '가각'.encode(), unicodedata.normalize('NFD', '가각').encode()]
 
 
 class ApiGen:
@@ -124,7 +127,7 @@ class ApiGen:
                 got = sorted(int(re.search(r'len=(\d+)', e).group(1)) for e in o.events if e.startswith('E zero') and ' stack ' in e)
                 # judged by the total (a refactoring may split or merge temporaries): fewer bytes wiped than the temporaries hold
                 if sum(got) < sum(exp):
-                    self.report('C16', 'wipe-sizes:' + o.head.split()[0], '"%s" wiped %d bytes of stack temporaries through the injected wipe (sizes %s); its temporaries hold %d bytes (sizes %s)' % (o.head[:120], sum(got), got, sum(exp), sorted(exp)))
+                    self.report('C16', 'wipe-sizes:' + o.head.split()[0], '"%s" wiped %d bytes of stack temporaries through the injected wipe (sizes %s); the temporaries of the modelled function hold %d bytes (sizes %s): theorems C16.create_wipes / encode_wipes / decode_wipes / decodeExplicit_wipes / crypt_wipes / load_wipes no longer describe the code' % (o.head[:120], sum(got), got, sum(exp), sorted(exp)))
         if o is not None:
             for e in o.events:
                 if e.startswith('E free') and e.endswith('zeroed=0'):
@@ -438,10 +441,17 @@ class ApiGen:
         return a['b'] == b['b'] and a['f'] == b['f'] and a['secret'] == b['secret'] and a['chk'] == b['chk']
 
     # ------------------------------------------------------------ probes
-    def probe_roundtrip(self, k):
+    def ambiguous_with(self, li, s):
+        """languages other than li whose lists recognise every token of phrase s (by the matcher's proven rule)"""
+        toks = nfkd(s).split(b' ')
+        return [lj for lj in range(self.nl) if lj != li and all(self.accepted_for(lj, t) for t in toks)]
+
+    def probe_roundtrip(self, k, li=None, coin=None):
         r = self.rnd
-        li = r.randrange(self.nl)
-        coin = r.choice([0, 1, 2, 2047, r.randrange(2048)])
+        if li is None:
+            li = r.randrange(self.nl)
+        if coin is None:
+            coin = r.choice([0, 1, 2, 2047, r.randrange(2048)])
         f = dict(self.slots[k])
         s = self.encode(k, li, coin)
         if s is None:
@@ -469,6 +479,8 @@ class ApiGen:
         if k3 is None:
             if o.kv('st') == '7':
                 self.count('auto/multlang')
+                if not self.ambiguous_with(li, s):
+                    self.report('C01', 'roundtrip-auto-multlang', 'auto-detection reported multiple languages for a phrase encoded in language %d although no other list recognises all of its words: %r' % (li, s.decode('utf-8', 'replace')))
             elif not (o.kv('st') == '4' and not self.supported(f['f'])):
                 self.report('C01', 'roundtrip-auto', 'decode(encode(seed)) with auto-detection returned status %s (lang %d coin %d)' % (o.kv('st'), li, coin))
         else:
@@ -477,6 +489,116 @@ class ApiGen:
             if o.kv('lang') != str(li):
                 self.report('C01', 'roundtrip-auto-lang', 'auto-detection reported language %s for a phrase encoded in language %d' % (o.kv('lang'), li))
             self.free(k3)
+
+    def craft(self, li, pick, coin=0, chk_ok=None, tries=600):
+        """a seed whose phrase in language li shows chosen words: pick(pos) gives the displayed word index for data
+        position pos (1..15).  Feature bits are kept zero (even coefficients at positions 1-5).  Returns
+        (secret19, birthday, features, displayed indices) or None."""
+        for _ in range(tries):
+            d = [pick(pos) for pos in range(1, 16)]
+            cs = list(d)
+            cs[0] ^= coin
+            if any(c % 2 for c in cs[0:5]) or any(not (0 <= c < 2048) for c in cs):
+                continue
+            chk = spec.poly_eval([0] + cs)
+            if chk_ok is not None and not chk_ok(chk):
+                continue
+            sec, b, f, _ = spec.unpack([0] + cs)
+            return sec, b, f, [chk] + d
+        return None
+
+    def near_common(self, a, b):
+        """words of language a that language b recognises once everything non-ASCII is dropped and 4-letter prefixes are
+        allowed on both sides - a superset of what b really accepts"""
+        key = ('near', a, b)
+        if key not in self._rule:
+            def asc(w):
+                return bytes(c for c in w if c < 128)
+            wb = [asc(w) for w in self.L.words(b)]
+            full = set(wb)
+            pre = {w[:n] for w in wb for n in range(4, len(w) + 1)}
+            out = []
+            for i, w in enumerate(self.L.words(a)):
+                t = asc(w)
+                if t in full or (len(t) >= 4 and (t in pre or t[:4] in {v[:4] for v in wb})):
+                    out.append(i)
+            self._rule[key] = out
+        return self._rule[key]
+
+    def probe_crafted(self):
+        """seeds chosen so that their phrases sit on the edges a random seed never reaches: words another list almost
+        recognises; an accent only in the last / first word or only at the end of a word; boundary word indices; equal
+        neighbouring words; longest and shortest words"""
+        r = self.rnd
+        kind = r.choice(['near', 'near', 'accent-edge', 'accent-edge', 'index-edge', 'equal', 'length'])
+        coin = r.choice([0, 0, 2, 2046, 2 * r.randrange(1024)])
+        li = r.randrange(self.nl)
+        pick = None
+        chk_ok = None
+        if kind == 'near':
+            accent = [i for i in range(self.nl) if self.L.langs[i]['accents']]
+            prefix = [i for i in range(self.nl) if self.L.langs[i]['prefix']]
+            if not accent or len(prefix) < 2:
+                return
+            li = r.choice(accent if r.random() < 0.7 else prefix)
+            lb = r.choice([x for x in prefix if x != li])
+            pool = self.near_common(li, lb)
+            if len(pool) < 8:
+                return
+            even = [i for i in pool if ((i ^ coin) % 2 == 0)] or pool
+            evn = [i for i in pool if i % 2 == 0] or pool
+            pick = lambda pos: r.choice(even if pos == 1 else evn if pos <= 5 else pool)
+            ps = set(pool)
+            chk_ok = lambda c: c in ps
+        elif kind == 'accent-edge':
+            comp = [i for i in range(self.nl) if self.L.langs[i]['accents'] or self.L.langs[i]['compose']]
+            if not comp:
+                return
+            li = r.choice(comp)
+            words = self.L.words(li)
+            plain = [i for i, w in enumerate(words) if all(c < 128 for c in w)]
+            marked = [i for i, w in enumerate(words) if any(c >= 128 for c in w)]
+            if len(plain) < 40 or not marked:
+                # every word is non-ASCII (Japanese, Korean): the edge is which words change under NFC
+                plain, marked = list(range(2048)), list(range(2048))
+            tail = [i for i in marked if words[i][-1] >= 128] or marked
+            head = [i for i in marked if words[i][0] >= 128] or marked
+            where = r.choice([15, 15, 1, 6, r.randrange(1, 16)])
+            special = r.choice([tail, tail, head, marked])
+            def pick(pos, where=where, special=special):
+                pool = special if pos == where else plain
+                if pos <= 5:
+                    pool = [i for i in pool if ((i ^ coin) if pos == 1 else i) % 2 == 0] or [i for i in plain if i % 2 == 0]
+                return r.choice(pool)
+            pl = set(plain)
+            chk_ok = (lambda c: c in pl) if r.random() < 0.7 else None
+        elif kind == 'index-edge':
+            edge = [0, 2, 1022, 1023, 1024, 1026, 2046, 2047, 1, 1025]
+            pick = lambda pos: r.choice([e for e in edge if pos > 5 or ((e ^ coin) if pos == 1 else e) % 2 == 0])
+        elif kind == 'equal':
+            base = 2 * r.randrange(1024)
+            pick = lambda pos: (base ^ coin) if pos == 1 and ((base ^ coin) % 2 == 0) else base
+        else:
+            words = self.L.words(li)
+            lens = sorted(set(len(w) for w in words))
+            target = r.choice([lens[0], lens[-1]])
+            pool = [i for i, w in enumerate(words) if len(w) == target]
+            pe = [i for i in pool if i % 2 == 0] or [i for i in range(0, 2048, 2)]
+            pick = lambda pos: r.choice([i for i in pe if ((i ^ coin) % 2 == 0)] or pe) if pos == 1 else r.choice(pe if pos <= 5 else pool)
+        c = self.craft(li, pick, coin, chk_ok)
+        if c is None:
+            c = self.craft(li, pick, coin, None)
+        if c is None:
+            return
+        sec, b, f, shown = c
+        self.count('crafted/' + kind)
+        o, k = self.load(spec.storage(sec, b, f))
+        if o is None or k is None:
+            return
+        self.probe_roundtrip(k, li, coin)
+        if r.random() < 0.4:
+            self.probe_variants(k, li, coin)
+        self.free(k)
 
     def probe_errors(self, k):
         """C02 / C05: substitutions, swaps, wrong coins"""
@@ -494,11 +616,16 @@ class ApiGen:
                 continue
             t2 = list(toks)
             t2[i] = words[v]
-            o, k2 = self.decode(coin, self.render(li, t2), li)
+            armed = r.random() < 0.3
+            if armed:
+                self.s.directive('!failalloc 0')
+            o, k2 = self.decode(coin, self.render(li, t2), r.choice([li, li, None]))
+            if armed:
+                self.s.directive('!failalloc -1')
             if o is None:
                 return
-            if o.kv('st') != '3':
-                self.report('C02', 'substitution', 'lang %d: word %d replaced (%d -> %d) and decode_explicit returned %s, expected the checksum status' % (li, i + 1, p[i], v, o.kv('st')))
+            if o.kv('st') != '3' and not (o.kv('st') == '7'):
+                self.report('C02', 'substitution', 'lang %d: word %d replaced (%d -> %d) and decoding%s returned %s, expected the checksum status' % (li, i + 1, p[i], v, ' (with an allocator that would fail)' if armed else '', o.kv('st')))
             if k2 is not None:
                 self.free(k2)
         for _ in range(3):
@@ -507,18 +634,28 @@ class ApiGen:
                 continue
             t2 = list(toks)
             t2[i], t2[j] = t2[j], t2[i]
-            o, k2 = self.decode(coin, self.render(li, t2), li)
+            armed = r.random() < 0.3
+            if armed:
+                self.s.directive('!failalloc 0')
+            o, k2 = self.decode(coin, self.render(li, t2), r.choice([li, li, None]))
+            if armed:
+                self.s.directive('!failalloc -1')
             if o is None:
                 return
-            if o.kv('st') != '3':
-                self.report('C02', 'swap', 'lang %d: words %d and %d exchanged and decode_explicit returned %s, expected the checksum status' % (li, i + 1, j + 1, o.kv('st')))
+            if o.kv('st') != '3' and not (o.kv('st') == '7'):
+                self.report('C02', 'swap', 'lang %d: words %d and %d exchanged and decoding%s returned %s, expected the checksum status' % (li, i + 1, j + 1, ' (with an allocator that would fail)' if armed else '', o.kv('st')))
             if k2 is not None:
                 self.free(k2)
         s = self.render(li, toks)
         for cb in [coin ^ 1, coin ^ 2047, (coin + 1) % 2048, 2047 - coin if 2047 - coin != coin else 5, r.randrange(2048), 0, 2047]:
             if cb == coin:
                 continue
+            armed = r.random() < 0.2
+            if armed:
+                self.s.directive('!failalloc 0')
             o, k2 = self.decode(cb, s, li)
+            if armed:
+                self.s.directive('!failalloc -1')
             if o is None:
                 return
             if o.kv('st') != '3':
@@ -560,10 +697,12 @@ class ApiGen:
             out.append(u)
         return out
 
-    def probe_variants(self, k):
+    def probe_variants(self, k, li=None, coin=None):
         r = self.rnd
-        li = r.choice([i for i in range(self.nl)])
-        coin = r.choice([0, 1, r.randrange(2048)])
+        if li is None:
+            li = r.choice([i for i in range(self.nl)])
+        if coin is None:
+            coin = r.choice([0, 1, r.randrange(2048)])
         f = dict(self.slots[k])
         p = self.seed_poly(k, coin)
         toks = self.tokens(li, p)
@@ -580,14 +719,18 @@ class ApiGen:
                 form = None
             except UnicodeDecodeError:
                 pass
-        s = self.render(li, v, form=form, sep=r.choice([None, None, b' ']))
+        # separators: the language's own, a plain space, and (rarely) other spaces that NFKD turns into a plain space -
+        # for those only the model decides, no property says they must be accepted
+        sep = r.choice([None, None, None, b' ', b' ', '\u00a0'.encode(), '\u3000'.encode(), '\u2003'.encode()])
+        stated = sep in (None, b' ')
+        s = self.render(li, v, form=form, sep=sep)
         if r.random() < 0.3:
             s += b' '
         o, k2 = self.decode(coin, s, li)
         if o is None:
             return
         if k2 is None:
-            if not (o.kv('st') == '4' and not self.supported(f['f'])):
+            if stated and not (o.kv('st') == '4' and not self.supported(f['f'])):
                 self.report('C08', 'variant-rejected', 'lang %d: phrase altered only by permitted abbreviation/accent dropping/%s form returned status %s: %r' % (li, form, o.kv('st'), s.decode('utf-8', 'replace')))
         else:
             if not self.same_seed(self.slots[k2], f):
@@ -914,7 +1057,14 @@ class ApiGen:
         for pos in (5, 6, 7):
             if r.random() < 0.4:
                 ids[pos] = 0
+        if r.random() < 0.6:
+            self.features(r.choice([1, 2, 4, 5, 7]))
         self.inject(ids)
+        if self.mask:
+            # the enabled features are not part of the dependency table: the most recent enabling call still wins
+            kf = self.create(feat=r.choice([self.mask, self.mask & -self.mask]))
+            if kf is not None:
+                self.free(kf)
         exp = list(ids)
         exp[5] = exp[5] or 1001
         exp[6] = exp[6] or 1002
@@ -990,6 +1140,8 @@ class ApiGen:
                 self.probe_mixed_languages()
             elif n == 'inject':
                 self.probe_inject()
+            elif n == 'crafted':
+                self.probe_crafted()
             elif n == 'queries':
                 self.op('birthday %d' % k)
                 self.op('isenc %d' % k)
@@ -1008,4 +1160,4 @@ class ApiGen:
                     self.report('C15', 'leak', 'at the end of the session %s blocks from the injected allocator were never returned (all seeds were freed)' % m.group(1))
 
 
-DEFAULT_WEIGHTS = dict(roundtrip=5, errors=3, variants=4, badtokens=3, storage=3, crypt=3, faults=2, unsupported=2, garbage=2, mixed=1, inject=1, queries=1)
+DEFAULT_WEIGHTS = dict(roundtrip=5, errors=3, variants=4, badtokens=3, storage=3, crypt=3, faults=2, unsupported=2, garbage=2, mixed=1, inject=1, queries=1, crafted=3)
